@@ -1209,8 +1209,37 @@ def m_print(I, a, k):
     return None
 
 
+def m_heappush(I, a, k):
+    """heapq.heappush: the list is kept SORTED (a sorted list is a heap; programs observing only heap[0], len, heappop and
+    heappush cannot tell the difference in the multiset or in the minimum)"""
+    import ast as _ast
+    lst, item = a[0], a[1]
+    if not isinstance(lst, list):
+        raise Undecided("heappush on %r" % (lst,))
+    pos = len(lst)
+    for i, x in enumerate(lst):
+        c = M.compare(I, _ast.Lt(), item, x)
+        if I.truthy(c):
+            pos = i
+            break
+    lst.insert(pos, item)
+    return None
+
+
+def m_heappop(I, a, k):
+    lst = a[0]
+    if not isinstance(lst, list):
+        raise Undecided("heappop on %r" % (lst,))
+    if not lst:
+        raise PyRaise(IndexError("index out of range"), IndexError)
+    return lst.pop(0)
+
+
 def m_divmod(I, a, k):
     return (M.py_floordiv(I, a[0], a[1]), M.py_mod(I, a[0], a[1]))
+
+
+import heapq as _heapq_mod
 
 
 def build_table():
@@ -1219,6 +1248,7 @@ def build_table():
         builtins.int: m_int, builtins.bool: m_bool, builtins.str: m_str, builtins.bytes: m_bytes,
         builtins.isinstance: m_isinstance, builtins.type: m_type, builtins.range: m_range,
         builtins.sum: m_sum, builtins.sorted: m_sorted, builtins.enumerate: m_enumerate, builtins.zip: m_zip,
+        _heapq_mod.heappush: m_heappush, _heapq_mod.heappop: m_heappop,
         builtins.reversed: m_reversed, builtins.list: m_list, builtins.tuple: m_tuple, builtins.dict: m_dict, dict.__init__: m_dict_init, dict.__setitem__: m_dict_setitem, dict.__delitem__: m_dict_delitem,
         builtins.set: m_set, builtins.frozenset: m_frozenset, builtins.any: m_any, builtins.all: m_all,
         builtins.hash: m_hash, builtins.getattr: m_getattr, builtins.hasattr: m_hasattr,
